@@ -77,29 +77,35 @@ func innermostLoop(b *ssa.BasicBlock) (*ssa.BasicBlock, map[*ssa.BasicBlock]bool
 	var best *ssa.BasicBlock
 	var bestBody map[*ssa.BasicBlock]bool
 	for _, h := range f.Blocks {
+		// natural loop of header h = union over all its back edges
+		body := map[*ssa.BasicBlock]bool{h: true}
+		st := []*ssa.BasicBlock{}
+		isHeader := false
 		for _, t := range h.Preds {
 			if !h.Dominates(t) {
 				continue
 			}
-			body := map[*ssa.BasicBlock]bool{h: true}
-			st := []*ssa.BasicBlock{}
+			isHeader = true
 			if !body[t] {
 				body[t] = true
 				st = append(st, t)
 			}
-			for len(st) > 0 {
-				x := st[len(st)-1]
-				st = st[:len(st)-1]
-				for _, p := range x.Preds {
-					if !body[p] {
-						body[p] = true
-						st = append(st, p)
-					}
+		}
+		if !isHeader {
+			continue
+		}
+		for len(st) > 0 {
+			x := st[len(st)-1]
+			st = st[:len(st)-1]
+			for _, p := range x.Preds {
+				if !body[p] {
+					body[p] = true
+					st = append(st, p)
 				}
 			}
-			if body[b] && (best == nil || len(body) < len(bestBody)) {
-				best, bestBody = h, body
-			}
+		}
+		if body[b] && (best == nil || len(body) < len(bestBody)) {
+			best, bestBody = h, body
 		}
 	}
 	return best, bestBody
